@@ -38,9 +38,9 @@ theorem rename_code (truth : Term → Bool) :
     first of duplicate names is kept); every kept column is reconciled to the receiver's row count and copied. -/
 theorem cbind_code (truth : Term → Bool) :
     DataFrame_cbind truth =
-      let seen := Term.app "set" []
+      let seen := Term.app "set()" []
       Out.fall [Term.app "for" [Term.app "tuple" [Term.sym "i", Term.sym "data"],
-        Term.app "enumerate" [Term.app "Add" [Term.app "list" [Term.sym "self"], Term.app "list" [Term.sym "others"]]],
+        Term.app "enumerate" [Term.app "Add" [Term.app "list" [Term.sym "self"], Term.app "list()" [Term.sym "others"]]],
         Term.app "block" [Term.app "for" [Term.app "tuple" [Term.sym "colname", Term.sym "column"], Term.app ".items" [Term.sym "data"],
           Term.app "block" [Term.app "if" [Term.app "In" [Term.sym "colname", seen], Term.app "block" [Term.sym "continue"], Term.app "block" []],
             Term.app ".add" [seen, Term.sym "colname"],
